@@ -89,6 +89,10 @@ def build_templates(seed, n_rand, n_pert_each):
                  "text": "g :: fn x: int -> int do\n    x + 1\nend\nstart :: fn do\n    f := fn x: *A -> *A do\n        x\n    end\n    print(f(?a))\n    f = g\n    print(f(\"abc\"))\nend\n"})
     base.append({"name": "closure_returning_captured_parameter", "no_perturb": True, "role": "closure over a generic parameter read at two types", "dom": {"a": (0, 3)},
                  "text": "f :: fn x do\n    g :: fn -> x end\n    a : int : g()\n    b : str : g()\n    print(a + 1)\n    print(b + \"s\")\nend\nstart :: fn do\n    f(?a)\nend\n"})
+    base.append({"name": "if_value_with_a_branch_that_has_no_value", "no_perturb": True, "role": "if used as a value, one branch ends in a statement", "dom": {"a": (0, 4)},
+                 "text": "start :: fn do\n    y := 0\n    x :: if ?a > 2 do 1 else y = 2 end\n    print(x + 1)\nend\n"})
+    base.append({"name": "function_parameter_used_at_two_types", "no_perturb": True, "role": "function-typed parameter with wildcard type called at two types", "dom": {"a": (0, 3)},
+                 "text": "apply :: fn g: fn * -> * ->\n    g(?a)\n    g(\"a\")\nend\nstart :: fn do\n    x :: apply(fn a: int -> int do a + 1 end)\n    print(1)\nend\n"})
     for t in base:
         t = dict(t); t["name"] = "base_" + t["name"]; out.append(t)
     for t in base:
